@@ -83,15 +83,37 @@ def Token.intValue? : Token → Option Int
   | .litIntS64 v => some v
   | _ => none
 
-theorem mkIntToken_value (v : Nat) (k : Option IntType) (h : k ≠ some .Signed64 ∨ v < 2 ^ 63) :
-    (mkIntToken v k).intValue? = some (v : Int) := by
+/-- a token, once built, denotes exactly the value it was built from -/
+theorem mkIntToken?_value {v : Nat} {k : Option IntType} {tok : Token} (h : mkIntToken? v k = some tok) :
+    tok.intValue? = some (v : Int) := by
+  match k, h with
+  | none, h => simp [mkIntToken?] at h; subst h; rfl
+  | some .Unsigned32, h => simp [mkIntToken?] at h; subst h; rfl
+  | some .Unsigned64, h => simp [mkIntToken?] at h; subst h; rfl
+  | some .Signed64, h =>
+    simp only [mkIntToken?] at h
+    split at h
+    · simp at h; subst h; rfl
+    · cases h
+
+/-- the only literal that is not given a token: suffix `l` on a value that does not fit `i64` -/
+theorem mkIntToken?_none {v : Nat} {k : Option IntType} :
+    mkIntToken? v k = none ↔ (k = some .Signed64 ∧ 2 ^ 63 ≤ v) := by
   match k with
-  | none => rfl
-  | some .Unsigned32 => rfl
-  | some .Unsigned64 => rfl
+  | none => simp [mkIntToken?]
+  | some .Unsigned32 => simp [mkIntToken?]
+  | some .Unsigned64 => simp [mkIntToken?]
   | some .Signed64 =>
-    have hv : v < 2 ^ 63 := by rcases h with h | h; exact absurd rfl h; exact h
-    simp [mkIntToken, Token.intValue?, asI64, hv]
+    simp only [mkIntToken?]
+    split
+    · simp; omega
+    · simp; omega
+
+/-- the range of the payload type of the token: `u64` for no suffix / `u` / `ul`, `i64` for `l` -/
+def Token.intInRange : Token → Prop
+  | .litInt v | .litIntU32 v | .litIntU64 v => v < 2 ^ 64
+  | .litIntS64 v => -(2 ^ 63 : Int) ≤ v ∧ v < 2 ^ 63
+  | _ => True
 
 theorem decDigit_lt (b : UInt8) (d : Nat) (h : decDigit? b = some d) : d < 10 := by
   unfold decDigit? at h; split at h <;> simp at h; omega
